@@ -7,6 +7,8 @@ package network
 //@ type libp2pDataTransferNetwork
 //@   nonnil host
 
+//@ extern func (github.com/libp2p/go-libp2p/core/host.Host).ConnManager
+//@   ensures [libp2p] result != nil -- assumed of libp2p: a host always has a connection manager
 //@ extern func (github.com/libp2p/go-libp2p/core/host.Host).NewStream
 //@   ensures [libp2p] result1 == nil ==> result0 != nil
 //@ extern func (github.com/filecoin-project/go-data-transfer/v2.Message).MessageForProtocol
@@ -72,3 +74,16 @@ package network
 //@   acquires {C20} channelmonitor.Monitor.lk, channelmonitor.monitoredChannel.shutdownLk, graphsync.Transport.dtChannelsLk, graphsync.dtChannel.lk, graphsync.dtChannel.optionsLk, registry.Registry.registryLk, tracing.SpansIndex.spansLk, transportoptions.TransportOptions.optionsLk
 //@ extern func (network.Receiver).ReceiveError
 //@   acquires {C20} nothing
+
+// connection-manager and delegate plumbing (C09: the protected tag is the one later un-protected; C15: one handler for every configured protocol)
+//@ func (*network.libp2pDataTransferNetwork).Protect {C09}
+//@   ensures [tags-connection] seq(Host.ConnManager, ConnManager.Protect) && all(ConnManager.Protect, $1 == id && $2 == tag)
+//@ func (*network.libp2pDataTransferNetwork).Unprotect {C09}
+//@   ensures [untags-connection] seq(Host.ConnManager, ConnManager.Unprotect) && all(ConnManager.Unprotect, $1 == id && $2 == tag) && result == ret(ConnManager.Unprotect, 0)
+//@ func (*network.libp2pDataTransferNetwork).ConnectTo {C14}
+//@   ensures [connects-to-peer] seq(Host.Connect) && all(Host.Connect, $1 == ctx && $2.ID == p) && result == ret(Host.Connect, 0)
+//@ func (*network.libp2pDataTransferNetwork).SetDelegate {C15}
+//@   modifies dtnet.receiver
+//@   loop 0 invariant [one-handler-per-protocol] calls(Host.SetStreamHandler) == $i && dtnet.receiver == r
+//@   loop 0 step [this-protocol] calls(Host.SetStreamHandler) == 1 && all(Host.SetStreamHandler, $1 == dtnet.dtProtocols[$i - 1] && ismethod($2, dtnet, handleNewStream))
+//@   ensures [delegate-set] dtnet.receiver == r && calls(Host.SetStreamHandler) == len(dtnet.dtProtocols)
